@@ -1396,7 +1396,7 @@ def gen_case(spec):
 def plan(tier, verif_seed, scale=1.0):
     specs = []
     if tier == "quick":
-        n_enum, n_lines, n_random, n_kit, n_ff = 40, 12, 500, 30, 100
+        n_enum, n_lines, n_random, n_kit, n_ff = 60, 20, 800, 50, 150
     else:
         n_enum, n_lines, n_random, n_kit, n_ff = 2000, 300, 24000, 600, 6000
     counts = [("enumerate", n_enum), ("lines", n_lines), ("random", n_random), ("kit", n_kit), ("fault_free", n_ff)]
